@@ -26,13 +26,14 @@ type FaultPlan struct {
 	CrashAfterWrite int    `json:"crashAfterWrite,omitempty"` // k-th controller write after release start (1-based); 0 = none
 	FailCall        int    `json:"failCall,omitempty"`        // k-th controller call after release start (1-based); 0 = none
 	FailWriteCall   int    `json:"failWriteCall,omitempty"`   // k-th controller write call (create/update/patch/delete, incl. no-ops) after release start; 0 = none
+	FailCommit      int    `json:"failCommit,omitempty"`      // the k-th controller write that would change the store (no-ops not counted) fails instead / loses its response; 0 = none
 	FailKind        string `json:"failKind,omitempty"`        // error | timeout | conflict | lost
 	Random          int    `json:"random,omitempty"`          // number of additional random faults
 	RandomCrash     int    `json:"randomCrash,omitempty"`
 }
 
 func (f *FaultPlan) Empty() bool {
-	return f == nil || (f.CrashAfterWrite == 0 && f.FailCall == 0 && f.FailWriteCall == 0 && f.Random == 0 && f.RandomCrash == 0)
+	return f == nil || (f.CrashAfterWrite == 0 && f.FailCall == 0 && f.FailWriteCall == 0 && f.FailCommit == 0 && f.Random == 0 && f.RandomCrash == 0)
 }
 
 func isControllerActor(a string) bool {
@@ -57,6 +58,7 @@ type Run struct {
 	ctrlWrites     int
 	ctrlCalls      int
 	ctrlWriteCalls int
+	ctrlCommits    int
 	armed          bool
 	randFaultAt    map[int]string
 	randCrashAt    map[int]bool
@@ -207,6 +209,30 @@ func (r *Run) installHooks() {
 		}
 		r.phaseTag = tag
 	})
+	st.BeforeCommit = func(c *simapi.Call) (error, bool) {
+		if !r.armed || !isControllerActor(c.Actor) {
+			return nil, false
+		}
+		r.ctrlCommits++
+		if r.Faults == nil || r.Faults.FailCommit != r.ctrlCommits {
+			return nil, false
+		}
+		kind := r.Faults.FailKind
+		if kind == "conflict" && (c.Verb == "create" || c.Verb == "delete") {
+			kind = "error"
+		}
+		r.InjectedFaults = append(r.InjectedFaults, fmt.Sprintf("%s@commit%d:%s %s %s", kind, r.ctrlCommits, c.Actor, c.Verb, c.Key))
+		gr := schema.GroupResource{Group: c.GVK.Group, Resource: strings.ToLower(c.GVK.Kind) + "s"}
+		switch kind {
+		case "lost":
+			return nil, true
+		case "conflict":
+			return apierrors.NewConflict(gr, c.Key.Name, fmt.Errorf("injected")), false
+		case "timeout":
+			return apierrors.NewTimeoutError("injected", 1), false
+		}
+		return apierrors.NewInternalError(fmt.Errorf("injected fault")), false
+	}
 	st.AfterCommit = func(w *simapi.Write) {
 		if !r.armed || !isControllerActor(w.Actor) {
 			return
